@@ -29,6 +29,9 @@ Section Sound.
   Notation vloop := (vloop s hnode).
   Notation chain := (chain s hnode).
   Notation lenS := (lenS s).
+  Notation nextLayer_length := (nextLayer_length s hnode Hlen_node).
+  Notation nth_nextLayer := (nth_nextLayer s hnode Hlen_node).
+  Notation pairbuf_length := (pairbuf_length s hnode Hlen_node).
 
   Definition good (h : digest) : Prop := length h = s /\ h <> zeros s.
   Definition hintok (h : digest) : Prop := h = [] \/ length h = s.
@@ -142,7 +145,6 @@ Section Sound.
     destruct (Nat.lt_ge_cases (2 * j + 1) (length (L k))).
     - left. split; [assumption|]. apply (L_good k); [lia | apply nth_In; assumption].
     - right. split; [assumption | apply nth_overflow; assumption].
-    Show. Show Existentials.
   Qed.
 
   (* ---- what one accepted combination says about its inputs ---- *)
@@ -238,7 +240,7 @@ Section Sound.
     { intros H. rewrite <- half_to_nat in *. apply Hpos. assumption. }
     split.
     - (* the item itself *)
-      split; [|split].
+      unfold Phi. cbn [fst snd]. split; [|split].
       + destruct (N.even p) eqn:Ev.
         * destruct (DEv eq_refl) as [-> _]. apply nth_In.
           destruct (decode k j Hk Hj) as (_ & _ & ? & _). assumption.
@@ -252,21 +254,21 @@ Section Sound.
       + intros Hp. pose proof (half_lt_next k _ Hk Hp) as Hq.
         pose proof (step_decode k _ p h sib nh Hk Hq (Hparent Hq) Hh Hsib Hc) as [PEv POd].
         destruct (N.even p) eqn:Ev.
-        * destruct (PEv eq_refl) as [-> _]. rewrite even_to_nat in Ev.
-          rewrite <- (even_double_div2 _ Ev). reflexivity.
+        * destruct (PEv eq_refl) as [E _]. rewrite even_to_nat in Ev.
+          rewrite E. f_equal. apply even_double_div2. exact Ev.
         * destruct (POd eq_refl) as [D1 D2]. rewrite even_to_nat in Ev.
           pose proof (odd_double_div2 _ Ev) as E2.
           destruct sib as [|x sib'] eqn:Es.
           -- destruct (D2 eq_refl) as [_ Hge]. lia.
           -- destruct Hsib as [?|Hsl]; [discriminate|].
-             destruct (D1 Hsl ltac:(discriminate)) as (-> & _ & _). rewrite <- E2. reflexivity.
+             destruct (D1 Hsl ltac:(discriminate)) as (E & _ & _). rewrite E. f_equal. exact E2.
       + intros Hf. specialize (Hfull Hf). rewrite (Hf k Hk). rewrite half_to_nat in Hfull.
         rewrite Nat.div2_div in Hfull.
         pose proof (Nat.div_mod (N.to_nat p) 2 ltac:(lia)).
         pose proof (Nat.mod_upper_bound (N.to_nat p) 2 ltac:(lia)). lia.
     - (* a sibling taken from the partial layer *)
       intros Hgsib. destruct (Hgs Hgsib) as (Hsl & Hsz & Hsne).
-      split; [|split]; cbn [fst snd].
+      unfold Phi. cbn [fst snd]. split; [|split].
       + destruct (N.even p) eqn:Ev.
         * destruct (DEv eq_refl) as [_ D]. destruct (D Hsl Hsz) as [-> ?]. apply nth_In. assumption.
         * destruct (DOd eq_refl) as [D1 _]. destruct (D1 Hsl Hsne) as (_ & _ & ->). apply nth_In.
@@ -276,11 +278,11 @@ Section Sound.
         { pose proof (half_lt_next k _ Hk Hp) as H. rewrite <- half_to_nat, lxor1_half, half_to_nat in H. exact H. }
         pose proof (step_decode k _ p h sib nh Hk Hq (Hparent Hq) Hh Hsib Hc) as [PEv POd].
         destruct (N.even p) eqn:Ev.
-        * destruct (PEv eq_refl) as [_ D]. destruct (D Hsl Hsz) as [-> _].
-          rewrite (lxor1_even p Ev). rewrite even_to_nat in Ev.
+        * destruct (PEv eq_refl) as [_ D]. destruct (D Hsl Hsz) as [E _].
+          rewrite E. rewrite (lxor1_even p Ev). rewrite even_to_nat in Ev.
           pose proof (even_double_div2 _ Ev). f_equal. lia.
-        * destruct (POd eq_refl) as [D1 _]. destruct (D1 Hsl Hsne) as (_ & _ & ->).
-          destruct (lxor1_odd p Ev) as [-> H1]. rewrite even_to_nat in Ev.
+        * destruct (POd eq_refl) as [D1 _]. destruct (D1 Hsl Hsne) as (_ & _ & E).
+          rewrite E. destruct (lxor1_odd p Ev) as [-> H1]. rewrite even_to_nat in Ev.
           pose proof (odd_double_div2 _ Ev). f_equal. lia.
       + intros Hf. specialize (Hfull Hf). rewrite (Hf k Hk). rewrite half_to_nat in Hfull.
         rewrite Nat.div2_div in Hfull.
@@ -303,7 +305,7 @@ Section Sound.
     - destruct pl as [|[pos h] rest].
       + cbn in Hu. inversion Hu; subst.
         repeat split; [intros ? [] | exists []; reflexivity | tauto | lia].
-      + destruct (upV_cases s hnode pos rest) as [(h2 & rest2 & ->)|Hnp].
+      + destruct (upV_cases pos rest) as [(h2 & rest2 & ->)|Hnp].
         * rewrite upV_paired in Hu. destruct (combine pos h h2) as [nh|] eqn:Ec; [|discriminate].
           destruct (upV rest2 hints) as [[r hs]|e] eqn:Er; [|discriminate]. cbn in Hu. inversion Hu; subst.
           destruct (IH rest2 hints r hints' ltac:(cbn in Hn; lia) Er) as (I1 & I2 & I3 & I4).
@@ -326,6 +328,22 @@ Section Sound.
           -- cbn [length] in *. lia.
   Qed.
 
+  Lemma upV_err_not_ok : forall n pl hints e, (length pl <= n)%nat -> upV pl hints = inr e -> e <> VOk.
+  Proof.
+    induction n as [|n IH]; intros pl hints e Hn Hu.
+    - destruct pl; [cbn in Hu; discriminate | cbn in Hn; lia].
+    - destruct pl as [|[pos h] rest]; [cbn in Hu; discriminate|].
+      destruct (upV_cases pos rest) as [(h2 & rest2 & ->)|Hnp].
+      + rewrite upV_paired in Hu. destruct (combine pos h h2) as [nh|]; [|inversion Hu; discriminate].
+        destruct (upV rest2 hints) as [[r hs]|e'] eqn:Er; [discriminate|]. cbn in Hu. inversion Hu; subst.
+        apply (IH rest2 hints); [cbn in Hn; lia | assumption].
+      + rewrite upV_hint in Hu by assumption.
+        destruct hints as [|sh hints1]; [cbn in Hu; inversion Hu; discriminate|]. cbn [MerkleArray.stepHint] in Hu.
+        destruct (combine pos h sh) as [nh|]; [|inversion Hu; discriminate].
+        destruct (upV rest hints1) as [[r hs]|e'] eqn:Er; [discriminate|]. cbn in Hu. inversion Hu; subst.
+        apply (IH rest hints1); [cbn in Hn; lia | assumption].
+  Qed.
+
   Lemma upV_sound_step : forall k, (S k < length lv)%nat ->
     forall n pl hints pl' hints', (length pl <= n)%nat ->
       (forall it, In it pl -> good (snd it)) -> Forall hintok hints ->
@@ -335,7 +353,7 @@ Section Sound.
     intros k Hk. induction n as [|n IH]; intros pl hints pl' hints' Hn Hg Hh Hu HP it Hit.
     - destruct pl; [destruct Hit | cbn in Hn; lia].
     - destruct pl as [|[pos h] rest]; [destruct Hit|].
-      destruct (upV_cases s hnode pos rest) as [(h2 & rest2 & ->)|Hnp].
+      destruct (upV_cases pos rest) as [(h2 & rest2 & ->)|Hnp].
       + rewrite upV_paired in Hu. destruct (combine pos h h2) as [nh|] eqn:Ec; [|discriminate].
         destruct (upV rest2 hints) as [[r hs]|e] eqn:Er; [|discriminate]. cbn in Hu. inversion Hu; subst.
         assert (G2 : good h2) by (apply (Hg (N.lxor pos 1, h2)); right; left; reflexivity).
@@ -399,7 +417,8 @@ Section Sound.
                       (hints = [] /\ (length pl <= 1)%nat /\ inspectRoot (hd [] (last lv [])) pl = VOk)).
       { destruct hints; [|left; exact Hv]. destruct (Nat.leb_spec (length pl) 1); [right; auto | left; exact Hv]. }
       destruct Hcont as [Hc|(-> & Hl & Hi)].
-      + destruct (upV pl hints) as [[pl' hints']|e] eqn:Eu; [|subst; discriminate].
+      + destruct (upV pl hints) as [[pl' hints']|e] eqn:Eu;
+          [|exfalso; apply (upV_err_not_ok (length pl) pl hints e (le_n _) Eu); exact Hc].
         destruct (upV_props (length pl) pl hints pl' hints' (le_n _) Eu) as (Hnode & (used & Hused) & Hne' & _).
         assert (Hh' : Forall hintok hints') by (rewrite Hused in Hh; apply Forall_app in Hh; tauto).
         assert (Hg' : forall it, In it pl' -> good (snd it)).
